@@ -359,9 +359,7 @@ proof fn lemma_jj_rel_next(da: RuleDay, ta: int, ia: JulianDayCheckInfos, db: Ru
     }
 }
 
-// ASSUMED for the pair Mm.w.d x Mm.w.d only (axiom_mm_stable, not proved; see DESIGN.md, C11): the audited decision
-// procedure decides order stability.  Evidence for it: the exhaustive comparison of the design phase (131 155 299
-// decisions against a 400-year evaluation, 0 mismatches) and the bounded C11 probe.  The mixed pairs are proved.
+// (the pair Mm.w.d x Mm.w.d is proved in lemmas/45_mm.rs: lemma_mm_stable)
 // Mm.w.d against a Julian-notation day: the audited decision procedure decides order stability (proved)
 proof fn lemma_mj_stable(m: MonthWeekDay, tm: int, im: MonthWeekDayCheckInfos, d: RuleDay, td: int, id: JulianDayCheckInfos)
     requires
@@ -392,18 +390,6 @@ proof fn lemma_mj_stable(m: MonthWeekDay, tm: int, im: MonthWeekDayCheckInfos, d
             assert(rd_instant(dm, tm, y) <= rd_instant(d, td, y));
         }
     }
-}
-
-#[verifier::external_body]
-proof fn axiom_mm_stable(m1: MonthWeekDay, t1: int, m2: MonthWeekDay, t2: int)
-    requires
-        mwd_wf(m1),
-        mwd_wf(m2),
-        day_time_ok(t1),
-        day_time_ok(t2),
-    ensures
-        pair_stable(RuleDay::MonthWeekDay(m1), t1, RuleDay::MonthWeekDay(m2), t2) == mm_decision(m1, t1, m2, t2),
-{
 }
 
 // the three relations are symmetric in the roles of the two days
